@@ -91,6 +91,9 @@ func vSession(tag string, lock sessionsapi.Lock) *sessionsapi.SessionState {
 	if ndBool(tag + "-has-expires") {
 		t := time.Unix(int64(ndInt(tag+"-expires")), 0)
 		s.ExpiresOn = &t
+	} else if ndBool(tag + "-expires-is-the-zero-time") {
+		// what SetExpiresOn leaves when the token response carried no expires_in
+		s.ExpiresOn = &time.Time{}
 	}
 	return s
 }
@@ -126,7 +129,7 @@ func (s *vStore) Load(_ *http.Request) (*sessionsapi.SessionState, error) {
 			c := s.loadSess[k].CreatedAt.Unix()
 			verifAssume(c >= 1000000000 && c <= 9999999999)
 		}
-		if s.loadSess[k].ExpiresOn != nil {
+		if s.loadSess[k].ExpiresOn != nil && !s.loadSess[k].ExpiresOn.IsZero() {
 			c := s.loadSess[k].ExpiresOn.Unix()
 			verifAssume(c >= 1000000000 && c <= 9999999999)
 		}
